@@ -32,11 +32,19 @@ def oracle(chk):
                 ("SHO-under-edge", qs.SHO(s(), jnp.asarray(0.5 + 1.001e-3), s()), True),
                 ("SHO-over-edge", qs.SHO(s(), jnp.asarray(0.5 - 1.001e-3), s()), True),
                 ("CARMA", qs.CARMA(alpha=jnp.array([1.0, 1.2]), beta=jnp.array([1.0, 3.0])), False)]
-        comb = [("Sum", base[1][1] + base[0][1], True), ("Product", base[1][1] * base[3][1], True),
-                ("Scale", 2.5 * base[2][1], True), ("Tree", (base[6][1] + 0.5 * base[0][1]) * base[1][1], True)]
+        ev = lambda i: (lambda a, b, k=base[i][1]: float(k.evaluate(jnp.asarray(a), jnp.asarray(b))))  # noqa: E731
+        base = [b + (None,) for b in base]
+        # composites carry an INDEPENDENT value: the same arithmetic on the values of their (built-in) components
+        comb = [("Sum", base[1][1] + base[0][1], True, lambda a, b: ev(1)(a, b) + ev(0)(a, b)),
+                ("Product", base[1][1] * base[3][1], True, lambda a, b: ev(1)(a, b) * ev(3)(a, b)),
+                ("Scale", 2.5 * base[2][1], True, lambda a, b: 2.5 * ev(2)(a, b)),
+                ("Tree", (base[6][1] + 0.5 * base[0][1]) * base[1][1], True, lambda a, b: (ev(6)(a, b) + 0.5 * ev(0)(a, b)) * ev(1)(a, b)),
+                ("Matern32*Celerite", base[1][1] * base[4][1], True, lambda a, b: ev(1)(a, b) * ev(4)(a, b)),
+                ("Celerite*Matern52", base[4][1] * base[2][1], True, lambda a, b: ev(4)(a, b) * ev(2)(a, b)),
+                ("(Exp+Matern32)*Cosine", (base[0][1] + base[1][1]) * base[3][1], True, lambda a, b: (ev(0)(a, b) + ev(1)(a, b)) * ev(3)(a, b))]
         return base + comb
     for rep in range(2 if quick else 12):
-        for name, k, psd in kernels_(rng):
+        for name, k, psd, valfn in kernels_(rng):
             F = np.asarray(k.design_matrix())
             P = np.asarray(k.stationary_covariance())
             t = np.sort(rng.uniform(-1, 3, size=3))
@@ -50,6 +58,8 @@ def oracle(chk):
             h0 = np.asarray(k.observation_model(jnp.asarray(t[0])))
             h2 = np.asarray(k.observation_model(jnp.asarray(t[2])))
             ck(f"{name}/value", k.evaluate(jnp.asarray(t[0]), jnp.asarray(t[2])), h2 @ P @ A(t[0], t[2]) @ h0)
+            if valfn is not None:   # the kernel value of a sum / product / scaling is that arithmetic on the component values
+                ck(f"{name}/value = h P A h of the composite model", h2 @ P @ A(t[0], t[2]) @ h0, valfn(t[0], t[2]), kernel=name, t=[float(t[0]), float(t[2])])
             if psd:
                 ck(f"{name}/P-symmetric", P, P.T)
                 w = np.linalg.eigvalsh((P + P.T) / 2)
